@@ -5,6 +5,7 @@ import (
 	"sync/atomic"
 
 	"go.miragespace.co/specter/spec/chord"
+	"go.miragespace.co/specter/util/verifhook"
 
 	"github.com/zhangyunhao116/skipmap"
 )
@@ -27,12 +28,15 @@ func newNodeState(initial chord.State) *nodeState {
 }
 
 func (s *nodeState) Transition(exp chord.State, nxt chord.State) (chord.State, bool) {
+	verifhook.At("ns:enter", 0)
 	curr := s.state.Load()
+	verifhook.At("ns:loaded", 0)
 	currIndex := curr >> 4
 	prev := (currIndex << 4) | (uint64)(exp)
 	nextIndex := currIndex + 1
 	next := (nextIndex << 4) | (uint64)(nxt)
 	if s.state.CompareAndSwap(prev, next) {
+		verifhook.At("ns:swapped", 0)
 		s.history.Store(nextIndex, nxt)
 		return nxt, true
 	}
